@@ -98,10 +98,38 @@ def rule_type_gate(run, F, cfg):
                 if is_eq and m.group(2) in ("Document", "Subdocument"):
                     decided = True
             m2 = re.search(r"^discr\(arg:request\.request_type\)$", e)
-            if m2:
-                decided = decided or isinstance(v, int)
+            if m2 and isinstance(v, int):
+                # `matches!(request.request_type, Document | Subdocument)` / a match: the arm taken names the variant
+                vs = [x["name"] for x in F.adt("request::RequestType")["variants"]]
+                dv = {x.get("discr", i): x["name"] for i, x in enumerate(F.adt("request::RequestType")["variants"])}
+                nm = dv.get(v, vs[v] if v < len(vs) else "?")
+                types.add(nm)
+                decided = decided or nm in ("Document", "Subdocument")
         if not decided:
             ok = False
+    # the same as a table over the request types: the probe is reachable exactly for Document and Subdocument (two
+    # tests that can never hold together -- `!= Document || != Subdocument` -- leave no type that reaches it)
+    variants = [x["name"] for x in F.adt("request::RequestType")["variants"]]
+    reach_types = set()
+    for T in variants:
+        for p in reach:
+            cons = True
+            for e, v in p.conds:
+                m = re.search(r"PartialEq::(ne|eq)\(arg:request\.request_type, .*?request::RequestType::(\w+)", e)
+                if m:
+                    holds = (T == m.group(2)) if m.group(1) == "eq" else (T != m.group(2))
+                    cons = cons and (holds == bool(v == 1))
+                elif re.search(r"^discr\(arg:request\.request_type\)$", e):
+                    if isinstance(v, int):
+                        cons = cons and v < len(variants) and variants[v] == T
+                    elif isinstance(v, tuple) and v[0] == "not":
+                        cons = cons and all(not (x < len(variants) and variants[x] == T) for x in v[1])
+            if cons:
+                reach_types.add(T)
+                break
+    run.ob("C15.1.type-gate", "probe-reached-exactly-for-document-types", reach_types == {"Document", "Subdocument"},
+           f"the csp list is probed for the request types {sorted(reach_types)} (expected Document and Subdocument, nothing else "
+           "and nothing less)", site=f.loc(pb), config=cfg)
     run.ob("C15.1.type-gate", "document-or-subdocument", ok and types <= {"Document", "Subdocument"} and len(types) == 2,
            f"every path to csp.check_all has established request_type == Document or == Subdocument "
            f"({len(reach)} paths; types compared: {sorted(types)})", site=f.loc(pb), config=cfg,
@@ -123,6 +151,11 @@ def rule_type_gate(run, F, cfg):
 
 
 def rule_sets(run, F, cfg):
+    with F.fn("blocker::Blocker::get_csp_directives").normalised():
+        _rule_sets(run, F, cfg)
+
+
+def _rule_sets(run, F, cfg):
     f = F.fn("blocker::Blocker::get_csp_directives")
     with f.sites():
         diffs = f.calls(r"^std::collections::HashSet::difference$")
@@ -190,7 +223,7 @@ def rule_sets(run, F, cfg):
            "a matching csp exception that carries no directive returns None immediately", config=cfg)
     # the merged string is built from the difference iterator, joined with ','
     uses = [strip_generics(t["callee"]) for b, t in f.calls() if "difference" in f.expr_call(t)]
-    pushes = [c for c in F.closures_of(f.name) for b, t in c.calls(r"^std::string::String::push$")
+    pushes = [c for c in [f] + list(F.closures_of(f.name)) for b, t in c.calls(r"^std::string::String::push$")
               if c.expr_operand(t["args"][1]) == "','"]
     run.ob("C15.3.set-algebra", "join-comma", bool(pushes),
            "remaining directives are appended with a ',' separator", config=cfg)
@@ -235,6 +268,11 @@ def rule_parse(run, F, cfg):
 
 
 def rule_merge(run, F, cfg):
+    with F.fn("blocker::Blocker::get_csp_directives").normalised():
+        _rule_merge(run, F, cfg)
+
+
+def _rule_merge(run, F, cfg):
     """every remaining directive ends up in the result: the first one starts the string, each further one is appended
     after a ',' separator; nothing else is written to the result"""
     g = F.fn("blocker::Blocker::get_csp_directives")
@@ -248,6 +286,24 @@ def rule_merge(run, F, cfg):
         if c is not None:
             body = [re.sub(r"arg:\w+", "arg:directive", c.expr_call(t)) for b2, t in c.calls(r"String::push(_str)?$")]
     ok = len(first) >= 1 and len(fe) == 1 and body == ["std::string::String::push(up:merged, ',')", "std::string::String::push_str(up:merged, arg:directive)"]
+    if not fe:
+        # the same written as a `for` loop over the difference iterator: inside the loop of its next(), `,` then the
+        # element are appended to one string, and nothing else is
+        from analysis.guards import natural_loops, loop_of_iteration
+        nx = [b for b, t in g.calls(r"hash_set::Difference<.*Iterator>::next$")]
+        loops = natural_loops(g)
+        lp = None
+        for nb in nx:
+            lp = lp or loop_of_iteration(g, loops, nb)
+        if lp:
+            app = [(b, g.vexpr_call(t), g.expr_operand(t["args"][1])) for b, t in g.calls(r"String::push(_str)?$") if b in lp[1]]
+            app.sort()
+            tgt = set(re.match(r"^std::string::String::push(_str)?\((\$\w+), ", e).group(2) for b, e, a in app
+                      if re.match(r"^std::string::String::push(_str)?\((\$\w+), ", e))
+            body = [re.sub(r"\$\w+", "$v", e) for b, e, a in app]
+            ok = len(first) >= 1 and len(app) == 2 and len(tgt) == 1 and app[0][1].endswith(", ',')") \
+                and app[1][1].startswith("std::string::String::push_str(") and "Difference" in app[1][2] and "@Some.0" in app[1][2] \
+                and g.dominates(app[0][0], app[1][0])
     ret = g.expr_local(0)
     run.ob("C15.3.set-algebra", "every-remaining-directive-is-joined", ok and "Some{" in ret,
            f"get_csp_directives starts the result with the first remaining directive and appends `,` + directive for every "
